@@ -23,9 +23,20 @@ def hooked_copies():
         return {}, 'schedule points already present in the source tree'
     p = subprocess.run(['patch', '-p1', '--no-backup-if-mismatch', '-F', '3', '-d', d, '-i', PATCH],
                        stdout=subprocess.PIPE, stderr=subprocess.STDOUT, text=True)
+    note = 'hooks/manager.patch applied to a temporary copy and overlaid'
     if p.returncode != 0:
-        return {}, 'hooks/manager.patch does not apply to the current source: ' + ' / '.join(p.stdout.strip().split('\n')[-3:])
-    return {os.path.join(common.REPO, f): os.path.join(d, f) for f in FILES}, 'hooks/manager.patch applied to a temporary copy and overlaid'
+        # some hunks were rejected: the others are in place (build() falls back to no schedule points if this does not compile)
+        note = 'hooks/manager.patch applied only in part to the current source (%s)' % ' / '.join(l for l in p.stdout.strip().split('\n') if 'FAILED' in l or 'rejects' in l)[:300]
+    # the schedule points of manager.Pick are (re)placed by what its statements do - in front of every atomic operation on
+    # the status word -, so that an edited Pick can still be preempted between any two of its accesses (tools/mgrpoints)
+    exe, msg = common.build_tool('mgrpoints')
+    if exe is None:
+        return {}, msg
+    rc, o = common.sh([exe, os.path.join(d, 'poll_manager.go')], env=common.go_env(), timeout=120)
+    if rc != 0:
+        return {}, 'tools/mgrpoints failed: ' + o.strip()[-300:]
+    note += '; schedule points of ' + o.strip()
+    return {os.path.join(common.REPO, f): os.path.join(d, f) for f in FILES}, note
 
 def build(name='mgrh'):
     """returns (binary or None, build output, hooks: bool, note)"""
